@@ -110,7 +110,7 @@ Definition s_conn (cfg : config) (s : state) (ckv : N * conn) : list string :=
 Definition s_queue (s : state) (qkv : string * queue) : string :=
   let '(qn, qu) := qkv in
   "queue " ++ qn ++ " ready=[" ++ sjoin " " (map (fun u => sN (mid_of s u)) (q_ready qu)) ++ "] len=" ++ sZ (q_len qu) ++
-  " consumers=[" ++ sjoin " " (map (fun x => snd x) (q_consumers qu)) ++ "]" ++
+  " consumers=[" ++ sjoin " " (map (fun x => sN (fst (fst x)) ++ "." ++ sN (snd (fst x)) ++ ":" ++ snd x) (q_consumers qu)) ++ "]" ++
   " active=" ++ sB (q_active qu) ++ " excl=" ++ sB (q_excl qu) ++ " ad=" ++ sB (q_autodel qu) ++ " dur=" ++ sB (q_durable qu) ++
   " owner=" ++ sN (q_owner qu) ++ " cexcl=" ++ sB (q_cexcl qu) ++
   " m=" ++ sZ (q_mready qu) ++ "/" ++ sZ (q_munacked qu) ++ "/" ++ sZ (q_mtotal qu).
